@@ -115,6 +115,9 @@ def run_cvc5(text, timeout_s):
 
 def discharge(ob, timeout_ms=20000, second_backend=True):
     t0 = time.time()
+    if ob.expect != "valid":
+        timeout_ms = min(timeout_ms, 2000)
+        second_backend = False
     if isinstance(ob.goal, bool) or ob.goal is None:
         # structural fact decided directly on the AST / class table
         ok = bool(ob.goal)
@@ -136,7 +139,7 @@ def discharge(ob, timeout_ms=20000, second_backend=True):
     s.add(*ax)
     r = s.check()
     ob.backend = f"z3-{z3.get_version_string()}"
-    if r == z3.unknown:
+    if r == z3.unknown and ob.expect == "valid":
         # retry with the nlsat tactic pipeline, then cvc5
         try:
             t = z3.Then("simplify", "purify-arith", "solve-eqs", "smt").solver()
@@ -157,9 +160,9 @@ def discharge(ob, timeout_ms=20000, second_backend=True):
         ob.solver_output = txt
     ob.ms = (time.time() - t0) * 1000
     if ob.expect == "sat":
-        ob.status = {"sat": "ok", "unsat": "vacuous"}.get(out, "unknown")
+        ob.status = {"sat": "ok", "unsat": "vacuous"}.get(out, "guard_unknown")
     elif ob.expect == "refuted":
-        ob.status = {"sat": "ok", "unsat": "control_failed"}.get(out, "unknown")
+        ob.status = {"sat": "ok", "unsat": "control_failed"}.get(out, "guard_unknown")
     else:
         ob.status = {"unsat": "discharged", "sat": "refuted"}.get(out, "unknown")
         if out == "sat" and r == z3.sat:
@@ -167,6 +170,11 @@ def discharge(ob, timeout_ms=20000, second_backend=True):
             ob.solver_output = f"sat; model: {str(m)[:1500]}"
             if ob.replay and "vars" in ob.replay:
                 ob.model = model_values(m, ob.replay["vars"])
+                for fname, decl in (ob.replay.get("funcs") or {}).items():
+                    tab = []
+                    for a in apps_of(decl, asserts):
+                        tab.append([_val(m.eval(x, model_completion=True)) for x in a.children()] + [_val(m.eval(a, model_completion=True))])
+                    ob.model["fn:" + fname] = tab
         elif out == "sat":
             ob.solver_output = "sat (cvc5, no model extracted)"
         if out == "unknown":
